@@ -37,7 +37,7 @@ UNITS = {
                               "it_int": ["C14", "C18"], "it_byte_label|it_word_label": ["C04", "C12", "C14"], "get_type": ["C08", "C14"]}},
     "assembler": {"tpl": "assembler.rs", "props": ["C08", "C12", "C14", "C16", "C18"],
                   "fn_props": {**PRELUDE_FNS, "em_\\d+": ["C08", "C16"], "as_proc_def|as_call|as_jmps_loops|as_label": ["C08", "C14"],
-                               "as_procedure": ["C08", "C16"], "as_int": ["C14", "C18"], "as_offset": ["C12", "C14"],
+                               "as_procedure": ["C08", "C16"], "glue_em_\\d+": ["C14"], "as_int": ["C14", "C18"], "as_offset": ["C12", "C14"],
                                "as_byte_label|as_word_label|as_unsupported|as_offset_as_byte": ["C14"], "as_d[bw]_.*|as_set|advance_data_counter": ["C12", "C14"], "add_entry": ["C16"], "new|get_type": ["C08", "C14"]}},
     "driver": {"tpl": "driver.rs", "rlimit": 200, "props": ["C07", "C08", "C12", "C14", "C16", "C17", "C18", "C19", "C20"],
                "fn_props": {**PRELUDE_FNS, "run": ["C08"], "user_interface": ["C20"], "note_prompt": ["C20"], "note_lookup|note_cite": ["C16", "C20"], "lemma_least_undefined": ["C19", "C14"],
@@ -179,7 +179,40 @@ def assembler_emitters(ex) -> str:
         seen.add(p.user_action)
         k += 1
         out.append(f"//@action {rel} {p.sig} as em_{k}\n//@contract\n" + (EMIT_CONTRACT % m.group(1)) + "//@end\n")
+        g = immediate_glue(p, a, k)
+        if g:
+            out.append(g)
     return "\n".join(out), k
+
+
+# destination operand -> width, by the nonterminal that opens the operand list (names of the pinned grammar; an operand the table
+# does not know gets no glue obligation, never an alarm)
+DEST_BITS = {"gen_byte_reg": 8, "byte_label": 8, "quote_byte_length": 8, "gen_word_reg": 16, "word_label": 16, "quote_word_length": 16,
+             "seg_reg": 16}
+
+
+def immediate_glue(p, a, k):
+    """C14 'a constant outside the range of its operand is refused', for the two-operand productions with an immediate source:
+    the action runs only on what the immediate's nonterminal delivered, so the obligation is on the connection the grammar makes:
+    every value of the Rust type that nonterminal delivers (its number productions are under contract in unit `numbers`: exactly
+    the values of that type) must fit the destination's width.  A caller-against-callee check across the LR reduction."""
+    if p.nt not in ("mov", "binary_arithmetic", "binary_logical") or len(p.syms) < 4:
+        return None
+    bits = DEST_BITS.get(p.syms[1])
+    if bits is None:
+        return None
+    # the parameter of the LAST symbol, if it is a number
+    last = None
+    tup = [ty for pat, ty in a.params if pat.startswith("(")]
+    if tup:
+        m = re.fullmatch(r"\(\s*usize\s*,\s*(i8|u8|i16|u16|i32|u32)\s*,\s*usize\s*\)", tup[-1].strip())
+        if m:
+            last = m.group(1)
+    if last is None or p.syms[-1] in DEST_BITS or not re.fullmatch(r"[\w]+", p.syms[-1]):
+        return None
+    lo, hi = (-128, 255) if bits == 8 else (-32768, 65535)
+    return (f"// {p.sig}: the immediate arrives as `{last}` (nonterminal {p.syms[-1]}), the destination is {bits} bits wide\n"
+            f"pub proof fn glue_em_{k}(n: {last})\n    ensures {lo} <= n <= {hi}, //# C14 operand.every_immediate_the_grammar_delivers_fits_the_destination\n{{\n}}\n")
 
 
 def call_levels(text: str):
